@@ -22,6 +22,7 @@ import (
 
 	"go.opentelemetry.io/otel/metric"
 	mnoop "go.opentelemetry.io/otel/metric/noop"
+	"go.opentelemetry.io/otel/propagation"
 	"go.opentelemetry.io/otel/trace"
 	tnoop "go.opentelemetry.io/otel/trace/noop"
 )
@@ -49,7 +50,9 @@ type c16MP struct {
 	s *c16SDK
 }
 
-func (p c16MP) Meter(name string, _ ...metric.MeterOption) metric.Meter { return c16Meter{s: p.s, name: name} }
+func (p c16MP) Meter(name string, _ ...metric.MeterOption) metric.Meter {
+	return c16Meter{s: p.s, name: name}
+}
 
 type c16Meter struct {
 	mnoop.Meter
@@ -130,6 +133,130 @@ func (m c16Meter) Int64ObservableGauge(n string, _ ...metric.Int64ObservableGaug
 func (m c16Meter) Float64ObservableCounter(n string, _ ...metric.Float64ObservableCounterOption) (metric.Float64ObservableCounter, error) {
 	m.made(n)
 	return c16ObsCounter{s: m.s, n: n}, nil
+}
+
+type c16Int64UpDownCounter struct {
+	mnoop.Int64UpDownCounter
+	s *c16SDK
+	n string
+}
+
+func (c c16Int64UpDownCounter) Add(_ context.Context, v int64, _ ...metric.AddOption) {
+	c.s.mu.Lock()
+	c.s.values[c.n] = append(c.s.values[c.n], int(v))
+	c.s.mu.Unlock()
+}
+func (m c16Meter) Int64UpDownCounter(n string, _ ...metric.Int64UpDownCounterOption) (metric.Int64UpDownCounter, error) {
+	m.made(n)
+	return c16Int64UpDownCounter{s: m.s, n: n}, nil
+}
+
+type c16Int64Histogram struct {
+	mnoop.Int64Histogram
+	s *c16SDK
+	n string
+}
+
+func (c c16Int64Histogram) Record(_ context.Context, v int64, _ ...metric.RecordOption) {
+	c.s.mu.Lock()
+	c.s.values[c.n] = append(c.s.values[c.n], int(v))
+	c.s.mu.Unlock()
+}
+func (m c16Meter) Int64Histogram(n string, _ ...metric.Int64HistogramOption) (metric.Int64Histogram, error) {
+	m.made(n)
+	return c16Int64Histogram{s: m.s, n: n}, nil
+}
+
+type c16Int64Gauge struct {
+	mnoop.Int64Gauge
+	s *c16SDK
+	n string
+}
+
+func (c c16Int64Gauge) Record(_ context.Context, v int64, _ ...metric.RecordOption) {
+	c.s.mu.Lock()
+	c.s.values[c.n] = append(c.s.values[c.n], int(v))
+	c.s.mu.Unlock()
+}
+func (m c16Meter) Int64Gauge(n string, _ ...metric.Int64GaugeOption) (metric.Int64Gauge, error) {
+	m.made(n)
+	return c16Int64Gauge{s: m.s, n: n}, nil
+}
+
+type c16Float64Counter struct {
+	mnoop.Float64Counter
+	s *c16SDK
+	n string
+}
+
+func (c c16Float64Counter) Add(_ context.Context, v float64, _ ...metric.AddOption) {
+	c.s.mu.Lock()
+	c.s.values[c.n] = append(c.s.values[c.n], int(v))
+	c.s.mu.Unlock()
+}
+func (m c16Meter) Float64Counter(n string, _ ...metric.Float64CounterOption) (metric.Float64Counter, error) {
+	m.made(n)
+	return c16Float64Counter{s: m.s, n: n}, nil
+}
+
+type c16Float64Gauge struct {
+	mnoop.Float64Gauge
+	s *c16SDK
+	n string
+}
+
+func (c c16Float64Gauge) Record(_ context.Context, v float64, _ ...metric.RecordOption) {
+	c.s.mu.Lock()
+	c.s.values[c.n] = append(c.s.values[c.n], int(v))
+	c.s.mu.Unlock()
+}
+func (m c16Meter) Float64Gauge(n string, _ ...metric.Float64GaugeOption) (metric.Float64Gauge, error) {
+	m.made(n)
+	return c16Float64Gauge{s: m.s, n: n}, nil
+}
+
+type c16Int64ObservableCounter struct {
+	mnoop.Int64ObservableCounter
+	s *c16SDK
+	n string
+}
+
+func (m c16Meter) Int64ObservableCounter(n string, _ ...metric.Int64ObservableCounterOption) (metric.Int64ObservableCounter, error) {
+	m.made(n)
+	return c16Int64ObservableCounter{s: m.s, n: n}, nil
+}
+
+type c16Int64ObservableUpDownCounter struct {
+	mnoop.Int64ObservableUpDownCounter
+	s *c16SDK
+	n string
+}
+
+func (m c16Meter) Int64ObservableUpDownCounter(n string, _ ...metric.Int64ObservableUpDownCounterOption) (metric.Int64ObservableUpDownCounter, error) {
+	m.made(n)
+	return c16Int64ObservableUpDownCounter{s: m.s, n: n}, nil
+}
+
+type c16Float64ObservableUpDownCounter struct {
+	mnoop.Float64ObservableUpDownCounter
+	s *c16SDK
+	n string
+}
+
+func (m c16Meter) Float64ObservableUpDownCounter(n string, _ ...metric.Float64ObservableUpDownCounterOption) (metric.Float64ObservableUpDownCounter, error) {
+	m.made(n)
+	return c16Float64ObservableUpDownCounter{s: m.s, n: n}, nil
+}
+
+type c16Float64ObservableGauge struct {
+	mnoop.Float64ObservableGauge
+	s *c16SDK
+	n string
+}
+
+func (m c16Meter) Float64ObservableGauge(n string, _ ...metric.Float64ObservableGaugeOption) (metric.Float64ObservableGauge, error) {
+	m.made(n)
+	return c16Float64ObservableGauge{s: m.s, n: n}, nil
 }
 
 type c16Reg struct {
@@ -216,6 +343,14 @@ func (t c16Tracer) Start(ctx context.Context, n string, _ ...trace.SpanStartOpti
 	return tnoop.Tracer{}.Start(ctx, n)
 }
 
+type c16Prop struct{ injects atomic.Int32 }
+
+func (p *c16Prop) Inject(context.Context, propagation.TextMapCarrier) { p.injects.Add(1) }
+func (p *c16Prop) Extract(ctx context.Context, _ propagation.TextMapCarrier) context.Context {
+	return ctx
+}
+func (p *c16Prop) Fields() []string { return nil }
+
 // ---- driver
 
 func c16Reset() {
@@ -235,13 +370,14 @@ type c16Scn struct {
 }
 
 // ops:
-//   InstallM / InstallT       SetMeterProvider / SetTracerProvider
-//   Ctr                       c := Meter("x").Int64Counter("c"); c.Add(1)
-//   Hist                      h := Meter("y").Float64Histogram("h"); h.Record(2)
-//   UpDown                    u := Meter("x").Float64UpDownCounter("u"); u.Add(3)
-//   Cb / CbU                  g := Meter("x").Int64ObservableGauge("g"); reg := RegisterCallback(f,g) [; reg.Unregister()]
-//   Cb2U                      like CbU on a Float64ObservableCounter of meter "y", two Unregister calls
-//   Span                      Tracer("t").Start(ctx,"s").End()
+//
+//	InstallM / InstallT       SetMeterProvider / SetTracerProvider
+//	Ctr                       c := Meter("x").Int64Counter("c"); c.Add(1)
+//	Hist                      h := Meter("y").Float64Histogram("h"); h.Record(2)
+//	UpDown                    u := Meter("x").Float64UpDownCounter("u"); u.Add(3)
+//	Cb / CbU                  g := Meter("x").Int64ObservableGauge("g"); reg := RegisterCallback(f,g) [; reg.Unregister()]
+//	Cb2U                      like CbU on a Float64ObservableCounter of meter "y", two Unregister calls
+//	Span                      Tracer("t").Start(ctx,"s").End()
 func c16Body(sc c16Scn, res *string) func(x *sched.Exec) {
 	return func(x *sched.Exec) {
 		c16Reset()
@@ -249,6 +385,8 @@ func c16Body(sc c16Scn, res *string) func(x *sched.Exec) {
 		ctx := context.Background()
 		var installedAt atomic.Int64 // step+1 at which SetMeterProvider returned
 		var tinstalledAt atomic.Int64
+		var pinstalledAt atomic.Int64
+		prop := &c16Prop{}
 		type made struct {
 			add    func(v int)
 			name   string
@@ -261,10 +399,12 @@ func c16Body(sc c16Scn, res *string) func(x *sched.Exec) {
 			runs         *atomic.Int32
 		}
 		type out struct {
-			insts []made
-			cbs   []cb
-			spans []func()
-			sMust []bool
+			insts    []made
+			cbs      []cb
+			spans    []func()
+			sMust    []bool
+			props    []propagation.TextMapPropagator
+			propLost bool
 		}
 		outs := make([]out, len(sc.threads))
 		var wg vsync.WaitGroup
@@ -324,6 +464,53 @@ func c16Body(sc c16Scn, res *string) func(x *sched.Exec) {
 							_ = reg.Unregister()
 						}
 						o.cbs = append(o.cbs, cb{"oc", true, runs})
+					case "AllSync": // the remaining synchronous kinds, one measurement each
+						m := MeterProvider().Meter("z")
+						must := installedAt.Load() != 0
+						a, _ := m.Int64UpDownCounter("iud")
+						b, _ := m.Int64Histogram("ih")
+						c, _ := m.Int64Gauge("ig")
+						d, _ := m.Float64Counter("fc")
+						e, _ := m.Float64Gauge("fg")
+						a.Add(ctx, int64(val))
+						b.Record(ctx, int64(val))
+						c.Record(ctx, int64(val))
+						d.Add(ctx, float64(val))
+						e.Record(ctx, float64(val))
+						o.insts = append(o.insts,
+							made{func(v int) { a.Add(ctx, int64(v)) }, "iud", val, must},
+							made{func(v int) { b.Record(ctx, int64(v)) }, "ih", val, must},
+							made{func(v int) { c.Record(ctx, int64(v)) }, "ig", val, must},
+							made{func(v int) { d.Add(ctx, float64(v)) }, "fc", val, must},
+							made{func(v int) { e.Record(ctx, float64(v)) }, "fg", val, must})
+					case "AllAsync": // the remaining asynchronous kinds behind one callback
+						m := MeterProvider().Meter("z")
+						a, _ := m.Int64ObservableCounter("ioc")
+						b, _ := m.Int64ObservableUpDownCounter("ioud")
+						c, _ := m.Float64ObservableUpDownCounter("foud")
+						d, _ := m.Float64ObservableGauge("fog")
+						runs := &atomic.Int32{}
+						_, _ = m.RegisterCallback(func(_ context.Context, ob metric.Observer) error {
+							runs.Add(1)
+							ob.ObserveInt64(a, 1)
+							ob.ObserveInt64(b, 2)
+							ob.ObserveFloat64(c, 3)
+							ob.ObserveFloat64(d, 4)
+							return nil
+						}, a, b, c, d)
+						o.cbs = append(o.cbs, cb{"all-async", false, runs})
+					case "InstallP":
+						SetTextMapPropagator(prop)
+						pinstalledAt.Store(int64(x.Step()) + 1)
+					case "Inject":
+						pr := TextMapPropagator()
+						must := pinstalledAt.Load() != 0
+						before := prop.injects.Load()
+						pr.Inject(ctx, propagation.MapCarrier{})
+						if must && prop.injects.Load() != before+1 && len(sc.threads) == 2 {
+							o.propLost = true
+						}
+						o.props = append(o.props, pr)
 					case "Span":
 						tr := TracerProvider().Tracer("t")
 						must := tinstalledAt.Load() != 0
@@ -374,6 +561,18 @@ func c16Body(sc c16Scn, res *string) func(x *sched.Exec) {
 				_ = i
 			}
 		}
+		for ti := range outs {
+			if outs[ti].propLost {
+				x.Fail("C16|inject-after-install-not-forwarded", "an Inject made after SetTextMapPropagator had returned did not reach the installed propagator")
+			}
+			for _, pr := range outs[ti].props {
+				before := prop.injects.Load()
+				pr.Inject(ctx, propagation.MapCarrier{})
+				if pinstalledAt.Load() != 0 && prop.injects.Load() != before+1 {
+					x.Fail("C16|propagator-not-connected", "a propagator obtained from the global API does not forward to the installed one (%d calls for one Inject)", prop.injects.Load()-before)
+				}
+			}
+		}
 		if minstalled {
 			wantLive := 0
 			for ti := range outs {
@@ -409,7 +608,7 @@ func c16Body(sc c16Scn, res *string) func(x *sched.Exec) {
 			}
 			for _, s := range seen {
 				// observations must arrive at the SDK's own instrument types, not the global wrappers
-				if !strings.Contains(s, "c16Gauge") && !strings.Contains(s, "c16ObsCounter") {
+				if !strings.Contains(s, "global.c16") {
 					x.Fail("C16|observation-not-unwrapped", "the SDK observer received %s instead of its own instrument", s)
 				}
 			}
@@ -442,10 +641,12 @@ func c16Jobs(thorough, race bool) []c16Job {
 		{"G4-install-cb2U-updown", [][]string{{"InstallM"}, {"Cb2U"}, {"UpDown", "Ctr"}}},
 		{"G5-both-installs", [][]string{{"InstallM", "InstallT"}, {"Ctr", "Span"}, {"CbU"}}},
 		{"G6-prereg-then-race", [][]string{{"Cb", "InstallM"}, {"CbU"}}},
+		{"G7-all-other-kinds", [][]string{{"InstallM"}, {"AllSync"}, {"AllAsync"}}},
+		{"G8-propagator", [][]string{{"InstallP"}, {"Inject", "Inject"}}},
 	}
 	p := 3
 	if thorough {
-		p = 4
+		p = 6
 	}
 	if race {
 		p--
